@@ -99,8 +99,32 @@ def accept_pointer(tier):
                 pre=PRE_GHOST, replay={'kind': 'accept_pointer'})
 
 
+def rejected_shape_inst(name, params, expr, harness, tag, tier, root_name='operator='):
+    """compile-time clause, one program shape: the snippet must be rejected by the compiler (may_not_compile: then it is no
+    instance).  If a change makes it compile, the function it binds to is extracted and meets `ensures(0)`: a violation whose
+    obligation names the shape.  (Only the shapes listed here are watched; the clause as a whole stays undecided.)"""
+    cl = [('objs', '__CPROVER_requires(__CPROVER_rw_ok($this, sizeof(*$this)))'),
+          (tag, '__CPROVER_ensures(0)'),
+          ('frame', '__CPROVER_assigns(__CPROVER_object_whole($this))')]
+    return Inst(name, params, expr, cl, harness, leaves=['dynamic_check'], prop=PROP, root_name=root_name, tier=tier, pre=PRE_GHOST, may_not_compile=True,
+                note='program shape that must not compile; present as an instance only on a tree where it does')
+
+
+def rejected_shapes(tier):
+    out = []
+    # an array of raw application pointers stored into sandbox memory in one assignment, on a backend whose pointer representation
+    # is as wide as a host pointer (there the element types have the same width, so only the static check stands in the way)
+    TVA = cs('rlbox::tainted_volatile<int *[2], rlbox::vsbx64>')
+    AR = cs('std::array<int *, 2>', 'A_')
+    out.append(rejected_shape_inst('c02_shape_store_of_a_raw_pointer_array', 'tainted_volatile<int*[2], vsbx64>& tv, std::array<int*, 2>& a', 'tv = a;',
+                                   '  struct %s cell; struct %s a;\n  $ROOT(&cell, &a);\n' % (TVA, AR), 'an_array_of_raw_pointers_cannot_be_stored_into_sandbox_memory', tier))
+    TV = cs('rlbox::tainted_volatile<int *, rlbox::vsbx>')
+    out.append(rejected_shape_inst('c02_shape_store_of_a_raw_pointer', 'tainted_volatile<int*, vsbx>& tv, int* p', 'tv = p;',
+                                   '  struct %s cell; uintptr_t in_p;\n  $ROOT(&cell, (int *)in_p);\n' % TV, 'a_raw_pointer_cannot_be_stored_into_sandbox_memory', tier))
+    return out
+
 def units(tier):
-    insts = [tainted_assign('int*', tier), tainted_assign('fnptr', tier), volatile_assign('int*', tier), volatile_assign('fnptr', tier), accept_pointer(tier)]
+    insts = [tainted_assign('int*', tier), tainted_assign('fnptr', tier), volatile_assign('int*', tier), volatile_assign('fnptr', tier), accept_pointer(tier)] + rejected_shapes(tier)
     return [Unit('C02_raw_pointer_entry', insts)]
 
 
@@ -108,8 +132,8 @@ ASSUMPTIONS = [
     'A_backend for vsbx: impl_is_pointer_in_sandbox_memory(k,p) == in_k(p); impl_get_sandboxed_pointer(k,p) == p - base_k for in_k(p) (bodies verified against these contracts under C03)',
     'a second live sandbox instance is present in the symbolic address space (two-region table), so "other live sandbox" addresses are in the domain',
 ]
-TRUSTED = ['the compile-time clause of C02 (which assignment/call/registration shapes are rejected by the type checker) is NOT decided: a run-time contract cannot state that a program has no viable overload']
+TRUSTED = ['the compile-time clause of C02 (which assignment/call/registration shapes are rejected by the type checker) is NOT decided as a whole: a run-time contract cannot state that a program has no viable overload. Two program shapes are watched (instances c02_shape_*: store of a raw pointer / of an array of raw pointers into sandbox memory): each is a snippet the compiler must reject; on a tree where it compiles, the function it binds to is extracted and meets ensures(0)']
 MANIFEST = {
     'level_text': 'Run-time clause only. The instantiated bodies of tainted::assign_raw_pointer, tainted_volatile::assign_raw_pointer (object and function pointer arguments) and UNSAFE_accept_pointer are proved, for every 64-bit address (null, first/last byte, the other live sandbox, application memory) and every well-formed two-region address space, to abort unless the address lies inside the memory of the sandbox passed, to store exactly the address (tainted) or its guest representation address-base (tainted_volatile, 4-byte cell), to change nothing else, and not to abort for an inside address. Loop-free: complete.',
-    'level_note': 'The compile-time clause (raw pointers, foreign wrappers and ill-typed callbacks do not compile) is outside what a function contract can express and is not decided (DESIGN.md C02). Assumes A_backend for vsbx and the dynamic_check leaf contract.',
+    'level_note': 'The compile-time clause (raw pointers, foreign wrappers and ill-typed callbacks do not compile) is outside what a function contract can express and is not decided (DESIGN.md C02); two shapes are watched by snippets that must not compile (a tree on which one compiles fails the obligation named after the shape). A refused pointer is also proved not to be stored (state at the abort point). Assumes A_backend for vsbx and the dynamic_check leaf contract.',
 }
